@@ -286,6 +286,53 @@ def handle : List String → String
         s!"{(Driver.C17.hexId b.id).take 8}.{tStr b.tpe}.{b.loc.offset}.{b.loc.length}.{ulenStr b.loc.ulen}"
       s!"ok blobs={if bl.isEmpty then "-" else ",".intercalate bl} len={n} ff={",".intercalate ff}"
     | _, _, _ => "bad-op"
+  | ["packn", t, n, len, mode, reads] =>
+    -- a pack with many blobs: `n` blobs (ids = running number, `len` bytes each), `max` = as many as the packer's count limit
+    -- lets into one pack (`BasicPacker::should_save`: `count >= MAX_COUNT`, regenerated constant); header entries all
+    -- compressed / all uncompressed / every third uncompressed; hints `h<±k>` relative to the encrypted header's size
+    let t? := if t = "t" then some BlobType.tree else if t = "d" then some BlobType.data else none
+    let n? : Option Nat := if n = "max" then some Rustic.Gen.PACKER_MAX_COUNT else n.toNat?.bind fun k => if k ≤ 20000 then some k else none
+    let mode? : Option Nat := if mode = "c" then some 0 else if mode = "u" then some 1 else if mode = "m" then some 2 else none
+    match t?, n?, len.toNat?, mode? with
+    | some t, some n, some len, some mode =>
+      if len > 64 then "bad-op" else
+      let ulen (k : Nat) : Option Nat :=
+        if mode = 0 then some (len + 7) else if mode = 1 then none else if k % 3 = 0 then none else some (len + 7)
+      let adds := (List.range n).map fun k => (List.replicate len (0 : UInt8), k, ulen k)
+      let p := (Packer.new t).run adds
+      let (file, blobs) := p.finish toyEnc
+      let flen := file.length
+      let hsize := headerSize blobs
+      let hint? (x : String) : Option (Option Nat) :=
+        if x = "-" then some none
+        else if x.startsWith "h" then
+          match (x.drop 1).toString.toInt? with
+          | some r => if r.natAbs < 1048576 then some (some ((hsize : Int) + r).toNat) else none
+          | none => none
+        else match x.toNat? with
+          | some v => if v < 4294967296 then some (some v) else none
+          | none => none
+      let read? (r : String) : Option (Option Nat × Option Nat) :=
+        match r.splitOn ":" with
+        | [h, ps] =>
+          match hint? h, (if ps = "-" then some none else ps.toNat?.bind fun v => if v < 4294967296 then some (some v) else none) with
+          | some h, some ps => some (h, ps)
+          | _, _ => none
+        | _ => none
+      match (reads.splitOn ",").mapM read? with
+      | none => "bad-op"
+      | some reads =>
+        let ff := reads.map fun (hint, ps) =>
+          let trueSize := ps.isNone || ps == some flen
+          match fromFile toyDec file hint (ps.getD flen) with
+          | .ok bl => if bl = blobs then "=" else "ne"
+          | .error e => if trueSize then errStr e else "e"
+        let bstr (b : IndexBlob) :=
+          s!"{(Driver.C17.hexId b.id).take 8}.{tStr b.tpe}.{b.loc.offset}.{b.loc.length}.{ulenStr b.loc.ulen}"
+        let first := match blobs.head? with | some b => bstr b | none => "-"
+        let last := match blobs.getLast? with | some b => bstr b | none => "-"
+        s!"ok n={blobs.length} hsize={hsize} first={first} last={last} len={flen} ff={",".intercalate ff}"
+    | _, _, _, _ => "bad-op"
   | ["rix", ra, packs, files] =>
     if ra = "0" then rixObs false packs files else if ra = "1" then rixObs true packs files else "bad-op"
   | ["pw", dl, tl, fail, adds] =>
@@ -297,9 +344,9 @@ def handle : List String → String
   | ["order", variant, seed] =>
     if ["backup", "prune", "copy", "tiny", "tinyfail", "backupfail", "bigbackup"].contains variant ∧ seed.toNat?.isSome then "ok" else "bad-op"
   | ["repo", variant, seed] =>
-    if ["backup", "prune-fast", "prune-copy", "prune-all", "copy", "merge"].contains variant ∧ seed.toNat?.isSome then "ok" else "bad-op"
+    if ["backup", "prune-fast", "prune-copy", "prune-all", "copy", "merge", "rewrite", "repair-snapshots"].contains variant ∧ seed.toNat?.isSome then "ok" else "bad-op"
   | ["repair", variant, seed] =>
-    if ["all", "some", "none", "all-readall", "some-readall", "none-readall", "badhint"].contains variant ∧ seed.toNat?.isSome
+    if ["all", "some", "none", "all-readall", "some-readall", "none-readall", "badhint", "fullpack", "fullpack-readall"].contains variant ∧ seed.toNat?.isSome
     then "ok" else "bad-op"
   | _ => "bad-op"
 
